@@ -67,6 +67,8 @@ def setup(case, text=None):
 def vsg_frame(tb_text):
     """innermost vsg frame 'file:function' from a formatted traceback (for mechanism keys)."""
     last = None
+    if "RemoteTraceback" in tb_text and '"""' in tb_text:
+        tb_text = tb_text.split('"""')[1]  # the worker's traceback, not the parent's re-raise
     for ln in tb_text.splitlines():
         ln = ln.strip()
         if ln.startswith('File "') and "/vsg/" in ln:
@@ -126,6 +128,23 @@ def elements_for_file(f, tier):
         for ch in file_pairs(f):
             out.append({"file": f, "cfg": "jcl", "variant": ch})
     return out
+
+
+def loop_frame(tb_text):
+    """For a CPU-budget timeout: the innermost vsg frame whose function is a classify*/tokenize* loop
+    (the loop that does not advance), else the innermost vsg frame."""
+    frames = []
+    for ln in tb_text.splitlines():
+        ln = ln.strip()
+        if ln.startswith('File "') and "/vsg/" in ln:
+            try:
+                frames.append((ln.split('"')[1].split("/vsg/")[1], ln.rsplit(" in ", 1)[1]))
+            except Exception:
+                pass
+    for path, fn in reversed(frames):
+        if fn.startswith(("classify", "tokenize", "detect")) and "utils" not in path:
+            return path + ":" + fn
+    return (frames[-1][0] + ":" + frames[-1][1]) if frames else "?"
 
 
 def universe_size(tier):
